@@ -193,7 +193,6 @@ Definition leading_zero_digit (lit : str) : bool :=
 Definition strconv_float_ok (lit : str) : bool :=
   let '(ip, r1) := take_digits lit in
   let '(fp, r2) := match r1 with 46%N :: r => take_digits r | _ => ([], r1) end in
-  let has_dot := match r1 with 46%N :: _ => true | _ => false end in
   (* exponent *)
   let '(esign, ed, r3, has_exp) :=
     match r2 with
@@ -211,8 +210,8 @@ Definition strconv_float_ok (lit : str) : bool :=
   | [], _ => false
   | _, _ :: _ => false
   | _, [] =>
-      if has_dot && (match fp with [] => true | _ => false end) then false
-      else if has_exp && (match ed with [] => true | _ => false end) then false
+      (* strconv accepts an empty fraction after the dot ("1.", "1.e3") *)
+      if has_exp && (match ed with [] => true | _ => false end) then false
       else
         match digits_value 10 (ip ++ fp) 0, digits_value 10 ed 0 with
         | Some m, Some e =>
